@@ -373,3 +373,40 @@ def run(ck):
     ok = len(so) == 1 and norm(so[0].args[0]) == f"{rct.node.args.args[1].arg} in self._span"
     ck.ob(R5, rct.fid, ok, "output = now in span" if ok else
           "TimeSpan.recalc does not output `now in self._span`", rct, rct.node)
+
+    # ------------------------------------------------------------------ R07.7
+    R7 = ck.rule('R07.7', "the wake-up latency estimate that shortens the interruptible wait is "
+                 "updated only with samples that passed the clock-jump test (a jump must not inflate "
+                 "it: the scheduler would then sleep un-interruptibly, deaf to reload(), for up to "
+                 "half the jump before every wake-up)", 'M0', 1)
+    g7 = ck.cfg(mt.fid, 'M0')
+    est = None
+    for x in own_nodes(mt.node):
+        if isinstance(x, ast.Call) and call_name(x) == 'wait_for' and len(x.args) == 2 and \
+                isinstance(x.args[1], ast.BinOp) and isinstance(x.args[1].op, ast.Sub) and \
+                isinstance(x.args[1].right, ast.Name):
+            est = x.args[1].right.id
+    if est is None:
+        # no latency estimate shortens an interruptible wait: nothing to protect (whether the wait
+        # is interruptible at all is R07.3's business)
+        ck.ob(R7, f"{mt.fid} :: no latency estimate in use", True,
+              "no `wait_for(<queue>.get(), <sleep> - <estimate>)`: nothing to decide here", mt, mt.node)
+        return
+    upd = nodes_where(g7, lambda n: isinstance(n.ast, ast.AugAssign) and norm(n.ast.target) == est)
+    # the jump test: the test whose true outcome sets the reset flag (flag.OR(...) / flag.set())
+    flagname = None
+    for n in g7.nodes:
+        if n.kind == 'test' and isinstance(n.stmt, ast.If) and 'test_clear()' in norm(n.ast):
+            for n2 in nodes_where(g7, lambda m_: 'recalc' in norm(m_.ast) and m_.kind == 'stmt'):
+                if g7.dominates(n, n2) and 'reload' not in norm(n.ast):
+                    flagname = norm(n.ast).split('.')[0]
+    ck.need(R7, flagname is not None, "_maintask: the reset flag was not recognised")
+    jump_false = [n for n in g7.nodes if n.kind == 'branch' and not n.polarity and
+                  f'{flagname}.OR(' in norm(n.test.ast)]
+    ok7 = bool(upd) and bool(jump_false) and all(any(g7.dominates(j, u) for j in jump_false) for u in upd)
+    ck.ob(R7, f"{mt.fid} :: `{est}` updated only after the clock-jump test", ok7,
+          f"every update of `{est}` lies behind the failed test `{flagname}.OR(...)`" if ok7 else
+          f"`{est}` is updated with a wake-up sample that has not passed the clock-jump test "
+          f"`{flagname}.OR(...)`: a forward jump of J seconds inflates it by about J/2", mt,
+          upd[0].ast if upd else mt.node)
+
